@@ -213,11 +213,6 @@ func (s *formatFMP4Segment) closeCurPart() error {
 }
 
 func (s *formatFMP4Segment) write(track *formatFMP4Track, sample *formatFMP4Sample, dts time.Duration) error {
-	endDTS := dts + timestampToDuration(int64(sample.Duration), int(track.initTrack.TimeScale))
-	if endDTS > s.endDTS {
-		s.endDTS = endDTS
-	}
-
 	if s.curPart == nil {
 		s.curPart = &formatFMP4Part{
 			maxPartSize:     s.f.ri.maxPartSize,
@@ -245,5 +240,18 @@ func (s *formatFMP4Segment) write(track *formatFMP4Track, sample *formatFMP4Samp
 		s.nextPartNumber++
 	}
 
-	return s.curPart.write(track, sample, dts)
+	err := s.curPart.write(track, sample, dts)
+	if err != nil {
+		return err
+	}
+
+	// update the end of the segment only after the sample has been accepted,
+	// otherwise the duration written in the header when the segment is closed
+	// includes a sample that is not in the segment.
+	endDTS := dts + timestampToDuration(int64(sample.Duration), int(track.initTrack.TimeScale))
+	if endDTS > s.endDTS {
+		s.endDTS = endDTS
+	}
+
+	return nil
 }
